@@ -84,11 +84,45 @@ pub proof fn lemma_pviews_eq(a: Seq<PView>, b: Seq<PView>) requires pviews_eq(a,
 pub broadcast proof fn lemma_subres_eq(a: SubRes, b: SubRes) requires #[trigger] subres_eq(a, b) ensures a == b {}
 pub open spec fn state_of(p: NetflowParser) -> PState { PState { v9: p.v9_parser, ipfix: p.ipfix_parser } }
 
-// semantic functions of the four sub-parsers (input: bytes after the 2-byte version field)
-pub uninterp spec fn v5_fn(b: Seq<u8>) -> SubRes;
-pub uninterp spec fn v7_fn(b: Seq<u8>) -> SubRes;
-pub uninterp spec fn v9_fn(st: V9Parser, b: Seq<u8>) -> (SubRes, V9Parser);
-pub uninterp spec fn ipfix_fn(st: IPFixParser, b: Seq<u8>) -> (SubRes, IPFixParser);
+// Semantic functions of the four nom-level packet parsers (input: bytes after the 2-byte version
+// field): Some((packet, unconsumed rest)) or None on any nom error.  Uninterpreted here: each stands
+// for the function that the parser *is* (determinism, DESIGN.md §3.2-5); for V5/V7 the units
+// V.v5.parse / V.v7.parse prove the real parser equal to a concrete such function.
+pub uninterp spec fn v5_nom(b: Seq<u8>) -> Option<(V5, Seq<u8>)>;
+pub uninterp spec fn v7_nom(b: Seq<u8>) -> Option<(V7, Seq<u8>)>;
+pub uninterp spec fn v9_nom(st: V9Parser, b: Seq<u8>) -> (Option<(V9, Seq<u8>)>, V9Parser);
+pub uninterp spec fn ipfix_nom(st: IPFixParser, b: Seq<u8>) -> (Option<(IPFix, Seq<u8>)>, IPFixParser);
+
+pub open spec fn nom_view<T>(r: IResult<&[u8], T>) -> Option<(T, Seq<u8>)> {
+    match r { Ok((rest, v)) => Some((v, rest@)), Err(_) => None }
+}
+
+// the four `*Parser::parse` wrappers, as the property statements describe them: a decoded packet of
+// that version with the unconsumed rest, or a Partial error carrying the version and the input.
+pub open spec fn v5_fn(b: Seq<u8>) -> SubRes {
+    match v5_nom(b) {
+        Some((p, rest)) => SubRes::Ok { pkt: NetflowPacket::V5(p), rem: rest },
+        None => SubRes::Err(EView::Partial { version: 5, remaining: b }),
+    }
+}
+pub open spec fn v7_fn(b: Seq<u8>) -> SubRes {
+    match v7_nom(b) {
+        Some((p, rest)) => SubRes::Ok { pkt: NetflowPacket::V7(p), rem: rest },
+        None => SubRes::Err(EView::Partial { version: 7, remaining: b }),
+    }
+}
+pub open spec fn v9_fn(st: V9Parser, b: Seq<u8>) -> (SubRes, V9Parser) {
+    match v9_nom(st, b).0 {
+        Some((p, rest)) => (SubRes::Ok { pkt: NetflowPacket::V9(p), rem: rest }, v9_nom(st, b).1),
+        None => (SubRes::Err(EView::Partial { version: 9, remaining: b }), v9_nom(st, b).1),
+    }
+}
+pub open spec fn ipfix_fn(st: IPFixParser, b: Seq<u8>) -> (SubRes, IPFixParser) {
+    match ipfix_nom(st, b).0 {
+        Some((p, rest)) => (SubRes::Ok { pkt: NetflowPacket::IPFix(p), rem: rest }, ipfix_nom(st, b).1),
+        None => (SubRes::Err(EView::Partial { version: 10, remaining: b }), ipfix_nom(st, b).1),
+    }
+}
 
 /// what lib.rs relies on from a sub-parser: on success the packet is of the right variant and
 /// the remainder is a suffix of the input; on failure the error is Partial{version, input}.
